@@ -119,6 +119,7 @@ type Config struct {
 	BlackHole   []string // package path prefixes whose functions are no-ops
 	NoInit      []string
 	Summarise   map[string]bool
+	MapOrder    map[string]bool // functions whose map ranges are explored in every order
 	InlineGo    bool
 	Verbose     bool
 	MaxViolationsPerSig int
